@@ -660,8 +660,8 @@ P["C09"]["units"] += [dict(jwkp_unit("C07", "openssl_process_rsa"), name="C09.op
 P["C07"]["units"].append(
     U("C07.jwks_process", "jwks_process (libjwt/jwks.c)", JWKS_C, "contracts/jwks_c.h",
       "jwk_set_t *s; json_t *j; json_error_t *e; jwks_process(s, j, e);", "jwks_process/contract_C07_jwks_process",
-      replace=["jwk_process_one/contract_rec_jwk_process_one", "jwks_item_add/contract_rec_jwks_item_add"],
-      assumed_contracts=["jwk_process_one/contract_rec_jwk_process_one", "jwks_item_add/contract_rec_jwks_item_add"],
+      replace=["jwk_process_one/contract_rec_jwk_process_one", "jwks_item_add/contract_rec_jwks_item_add", "jwks_free/contract_rec_jwks_free"],
+      assumed_contracts=["jwk_process_one/contract_rec_jwk_process_one", "jwks_item_add/contract_rec_jwks_item_add", "jwks_free/contract_rec_jwks_free"],
       stubs=LIBC + ["stubs/alloc.c", "stubs/jansson.c"], defines=["VERIF_TU_JWKS", "VERIF_ALLOC_RECORD_FAIL", "VJ_ARRAY_STATIC_ELEM"], flags=[], object_bits=10,
       loops={"jwks_process": [{"loop_id": 0, "vars": ["i", "j_item", "jwk_item", "jwk_set", "j_array"],
         "assigns": "i, j_item, jwk_item, jwk_set->error, SPEC_ERRMSG_FRAME(jwk_set), g_lib_fail, g_p1_calls, g_add_calls, g_p1_arg_k, g_p1_ret_k, g_add_item_k, g_vj_elem, __CPROVER_object_whole(g_vj_elem_str)",
